@@ -50,10 +50,17 @@ pub struct SinkLog {
     pub interrupts_delivered: u32,
 }
 
+/// Clones share all state (log and script cursors), so a clone can be handed to a writer that
+/// needs an owned `'static` sink while the test keeps observing it.
 #[derive(Clone)]
 pub struct FaultySink {
     pub log: Arc<Mutex<SinkLog>>,
-    script: SinkScript,
+    script: Arc<SinkScript>,
+    state: Arc<Mutex<State>>,
+}
+
+#[derive(Default)]
+struct State {
     accept_i: usize,
     intr_i: usize,
     failed: bool,
@@ -65,7 +72,7 @@ impl FaultySink {
         if !(script.interrupts.iter().any(|b| *b) && script.interrupts.iter().any(|b| !*b)) {
             script.interrupts.clear();
         }
-        FaultySink { log: Arc::new(Mutex::new(SinkLog::default())), script, accept_i: 0, intr_i: 0, failed: false }
+        FaultySink { log: Arc::new(Mutex::new(SinkLog::default())), script: Arc::new(script), state: Arc::new(Mutex::new(State::default())) }
     }
     pub fn snapshot(&self) -> SinkLog {
         self.log.lock().unwrap().clone()
@@ -73,12 +80,13 @@ impl FaultySink {
     fn fault(&mut self, log: &mut SinkLog) -> Option<io::Error> {
         let idx = log.calls;
         log.calls += 1;
+        let mut st = self.state.lock().unwrap();
         let hit = match self.script.fail_at {
-            Some(k) => idx == k || (self.script.sticky && self.failed),
+            Some(k) => idx == k || (self.script.sticky && st.failed),
             None => false,
         };
         if hit {
-            self.failed = true;
+            st.failed = true;
             log.errors_delivered += 1;
             let kind = self.script.kind.unwrap_or(FaultKind::Other).to_io();
             Some(io::Error::new(kind, "injected sink failure"))
@@ -96,18 +104,19 @@ impl Write for FaultySink {
         if let Some(e) = self.fault(&mut log) {
             return Err(e);
         }
+        let mut st = self.state.lock().unwrap();
         if !self.script.interrupts.is_empty() {
-            let i = self.intr_i % self.script.interrupts.len();
-            self.intr_i += 1;
-            if self.script.interrupts[i] {
+            let i = st.intr_i % self.script.interrupts.len();
+            st.intr_i += 1;
+            if self.script.interrupts[i] && log.interrupts_delivered < 64 {
                 log.interrupts_delivered += 1;
                 return Err(io::Error::new(io::ErrorKind::Interrupted, "injected interrupt"));
             }
         }
         let mut n = buf.len();
         if !self.script.accept.is_empty() && n > 0 {
-            let s = self.script.accept[self.accept_i % self.script.accept.len()] as usize;
-            self.accept_i += 1;
+            let s = self.script.accept[st.accept_i % self.script.accept.len()] as usize;
+            st.accept_i += 1;
             if s < n {
                 n = s.max(1);
                 log.short_writes += 1;
@@ -124,5 +133,22 @@ impl Write for FaultySink {
             return Err(e);
         }
         Ok(())
+    }
+}
+
+/// A sink that can be cloned into an owned `'static + Send` handle observing the same state.
+pub trait DynSink: Write + Send {
+    fn boxed_clone(&self) -> Box<dyn DynSink>;
+}
+
+impl DynSink for FaultySink {
+    fn boxed_clone(&self) -> Box<dyn DynSink> {
+        Box::new(self.clone())
+    }
+}
+
+impl DynSink for crate::io_adv::sink::SyncSink {
+    fn boxed_clone(&self) -> Box<dyn DynSink> {
+        Box::new(self.clone())
     }
 }
